@@ -203,6 +203,9 @@ TQuiet == /\ Is("Quiet") /\ Adv /\ Keep /\ UNCHANGED vars
           /\ Chk(SetOfSeq(E.used) \subseteq used, "quiet:more") /\ Chk(used \subseteq SetOfSeq(E.used) /\ E.last = last, "quiet:less")
 TClientClosed == /\ Is("ClientClosed") /\ Adv /\ Keep /\ UNCHANGED vars
                  /\ Chk((~DrvAlive => (E.shutdown \/ E.dropped)), "close")
+                 (* C04: "Unbind and dropping the last handle close the transport" - an Unbind that went out was followed by
+                    the client shutting its side down, whether or not its caller was still waiting *)
+                 /\ Chk((\E r \in c2s : r.kind = "unbind") => E.shutdown, "close")
 TIgnored == (Is("IdRelease")) /\ Adv /\ Keep /\ UNCHANGED vars
 
 Explained ==
